@@ -178,6 +178,10 @@ def check_phenotype(prog, rep):
         a = s.args[0] if s.args else None
         a_res = _resolve(a, {k: v for k, v in asg.items() if all(x in body for x in v)})
         txt = _strip(dump(a_res)) if a_res is not None else ""
+        if isinstance(a_res, ast.Call) and prog.dotted(f.module, a_res.func) == "numpy.full" and len(a_res.args) == 2 and not a_res.keywords \
+                and not isinstance(a_res.args[0], (ast.Tuple, ast.List)):
+            # numpy.full(n, k) with a scalar count is numpy.repeat(k, n)
+            a_res = ast.Call(func=ast.parse("numpy.repeat", mode="eval").body, args=[a_res.args[1], a_res.args[0]], keywords=[])
         if isinstance(a_res, ast.Call) and prog.dotted(f.module, a_res.func) == "numpy.repeat" and len(a_res.args) == 2:
             what, cnt = _strip(dump(a_res.args[0])), _strip(dump(a_res.args[1]))
             if cnt not in ntaxa_names and cnt != "%s.ntaxa" % gv:
@@ -381,8 +385,29 @@ def _check_value(prog, rep, f, K, outer, inner, env, repv, vlist, stray, gv, asg
         m = _resolve(mean, asg)
         c = _resolve(cov, asg)
         mtxt, ctxt = _strip(dump(m)), _strip(dump(c))
-        var_m = [v for v in VARS if mtxt in ("numpy.full(len(self.%s),0.0,float)" % v, "numpy.zeros(len(self.%s))" % v, "numpy.zeros(len(self.%s),float)" % v,
-                                             "numpy.full(len(self.%s),0.0)" % v, "numpy.zeros(len(self.%s),dtype=float)" % v)]
+        # a zero vector with one entry per trait, however it is spelled: zeros(n), full(n, 0.0), repeat(0.0, n) with n = len(self.var_x) or self.var_x.shape[0]
+        var_m = []
+        nonzero_fill = False
+        if isinstance(m, ast.Call):
+            dm = prog.dotted(f.module, m.func)
+            kwm = {k.arg: k.value for k in m.keywords}
+            n_, fill = None, None
+            if dm == "numpy.zeros" and (m.args or "shape" in kwm):
+                n_, fill = (m.args[0] if m.args else kwm["shape"]), 0.0
+            elif dm == "numpy.full" and len(m.args) + len([k for k in ("shape", "fill_value") if k in kwm]) >= 2:
+                n_ = m.args[0] if m.args else kwm["shape"]
+                fv = m.args[1] if len(m.args) > 1 else kwm["fill_value"]
+                fill = fv.value if isinstance(fv, ast.Constant) and isinstance(fv.value, (int, float)) else "?"
+            elif dm == "numpy.repeat" and len(m.args) == 2:
+                n_ = m.args[1]
+                fill = m.args[0].value if isinstance(m.args[0], ast.Constant) and isinstance(m.args[0].value, (int, float)) else "?"
+            elif dm == "numpy.ones":
+                fill = 1.0
+            if fill not in (None, "?") and fill != 0:
+                nonzero_fill = True
+            elif fill == 0 and n_ is not None:
+                ntxt = _strip(dump(n_))
+                var_m = [v for v in VARS if ntxt in ("len(self.%s)" % v, "self.%s.shape[0]" % v, "self.%s.size" % v, "len(self._%s)" % v, "self._%s.shape[0]" % v)]
         var_c = [v for v in VARS if ctxt in ("numpy.diag(self.%s)" % v, "numpy.diag(self._%s)" % v)]
         if not var_c:
             attr = isinstance(c, ast.Attribute) and isinstance(c.value, ast.Name) and c.value.id == "self"
@@ -400,7 +425,7 @@ def _check_value(prog, rep, f, K, outer, inner, env, repv, vlist, stray, gv, asg
                 good = False
                 continue
         if not var_m:
-            if mtxt.startswith(("numpy.full", "numpy.zeros", "numpy.ones")):
+            if nonzero_fill:
                 rep.violate(R, construct, "mean of %s is %s, not a zero vector: records are biased away from the true value" % (d, dump(m)[:50]), where(f, call), "zeros", dump(m)[:50])
             else:
                 rep.unrec(R, construct, "mean of %s: %s" % (d, dump(m)[:50]))
@@ -748,6 +773,16 @@ def check_estimate(prog, rep):
         guards_ = [g for g in lp.body if isinstance(g, ast.If) and any(isinstance(x, ast.Name) and x.id == s0.id for x in ast.walk(g.test))
                    and g.body and isinstance(g.body[-1], (ast.Continue,))]
         fires = False
+        # the other layout of the same test: the transfer sits INSIDE `if ix is not None:` / `if ix != <default>:` / `if ix >= 0:`
+        for g in lp.body:
+            if isinstance(g, ast.If) and not g.orelse and any(x is store for b in g.body for x in ast.walk(b)) and isinstance(g.test, ast.Compare) and len(g.test.ops) == 1 \
+                    and isinstance(g.test.left, ast.Name) and g.test.left.id == s0.id:
+                r_ = g.test.comparators[0]
+                rv = r_.value if isinstance(r_, ast.Constant) else (-r_.operand.value if isinstance(r_, ast.UnaryOp) and isinstance(r_.op, ast.USub) and isinstance(r_.operand, ast.Constant) else "?")
+                op_ = g.test.ops[0]
+                if (isinstance(op_, ast.IsNot) and rv is None and dval is None) or (isinstance(op_, ast.NotEq) and rv == dval and dval != "?") \
+                        or (isinstance(op_, ast.GtE) and isinstance(dval, int) and isinstance(rv, int) and dval < rv) or (isinstance(op_, ast.Gt) and isinstance(dval, int) and isinstance(rv, int) and dval <= rv):
+                    fires = True
         for g in guards_:
             t = g.test
             if isinstance(t, ast.Compare) and len(t.ops) == 1 and isinstance(t.left, ast.Name) and t.left.id == s0.id:
@@ -784,10 +819,26 @@ def check_estimate(prog, rep):
     # TABLE = dict(zip(KEYS, range(len(KEYS))))
     okt = isinstance(tdef, ast.Call) and dump(tdef.func) == "dict" and len(tdef.args) == 1 and isinstance(tdef.args[0], ast.Call) and dump(tdef.args[0].func) == "zip" \
         and len(tdef.args[0].args) == 2
-    if not okt:
+    enum_form = None
+    if not okt and isinstance(tdef, ast.DictComp) and len(tdef.generators) == 1 and not tdef.generators[0].ifs:
+        # {name: i for i, name in enumerate(KEYS)} is the same table
+        g_ = tdef.generators[0]
+        if isinstance(g_.iter, ast.Call) and dump(g_.iter.func) == "enumerate" and len(g_.iter.args) == 1 and not g_.iter.keywords and isinstance(g_.target, ast.Tuple) \
+                and len(g_.target.elts) == 2 and all(isinstance(e, ast.Name) for e in g_.target.elts) and isinstance(tdef.key, ast.Name) and isinstance(tdef.value, ast.Name):
+            i_, n_ = g_.target.elts[0].id, g_.target.elts[1].id
+            if tdef.key.id == n_ and tdef.value.id == i_:
+                enum_form = g_.iter.args[0]
+            elif tdef.key.id == i_ and tdef.value.id == n_:
+                rep.violate(R, c2, "the lookup table maps row positions to names (%s), not names to row positions" % dump(tdef)[:60], where(f, tdef))
+                return
+    if not okt and enum_form is None:
         rep.unrec(R, c2, "lookup table %s is not dict(zip(keys, range(len(keys))))" % T)
         return
-    keys, vals = tdef.args[0].args
+    if enum_form is not None:
+        keys = enum_form
+        vals = ast.parse("range(len(%s))" % dump(keys), mode="eval").body
+    else:
+        keys, vals = tdef.args[0].args
     if _strip(dump(vals)) not in ("range(len(%s))" % dump(keys), "range(%s.shape[0])" % dump(keys), "numpy.arange(len(%s))" % dump(keys)):
         rep.violate(R, c2, "the lookup table maps names to %s, not to their row positions range(len(%s))" % (dump(vals), dump(keys)), where(f, tdef))
         good = False
